@@ -29,7 +29,9 @@ NCounters == 12
 Chk(e, name, ok) == IF ok THEN TRUE ELSE PrintT(<<"BAD", e.sc, e.n, name>>)
 Cnt(i, cond) == IF cond THEN TLCSet(i, TLCGet(i) + 1) ELSE TRUE
 Counters == [i \in 1..NCounters |-> TLCGet(i)]
-Finish == IF l = Len(Rec) THEN PrintT(<<"COUNTS", Counters>>) /\ PrintT(<<"CONSUMED", l>>) ELSE TRUE
+\* TLC pretty-prints a value wider than 80 columns over several lines, which the line-oriented reader of
+\* bin/check would miss; a string with an escaped quote makes the pretty-printer give up and print one line
+Finish == IF l = Len(Rec) THEN PrintT(<<"COUNTS", Counters, "\"">>) /\ PrintT(<<"CONSUMED", l>>) ELSE TRUE
 
 NoCfg == [kind |-> "-"]
 Init == /\ l = 1 /\ c = NoCfg /\ spec = [dflt |-> 0, m |-> -1] /\ dupe = 0 /\ dupo = 0
@@ -67,9 +69,9 @@ Check ==
        /\ Chk(e, "NamedExactlyOnce", NamedExactlyOnce(W, tg, e.lvl, o))
        /\ Chk(e, "NotNamedNothing", NotNamedNothing(W, tg, o))
        /\ Chk(e, "CeilingRespected", CeilingRespected(W, e.lvl, o))
-       /\ Chk(e, "DefaultIff", DefaultIff(D, o))
-       /\ Chk(e, "DupErrIff", DupErrIff(D, o))
-       /\ Chk(e, "DupOutIff", DupOutIff(D, o))
+       /\ Chk(e, "DefaultIff", DefaultIff(c.primary, D, o))
+       /\ Chk(e, "DupErrIff", DupErrIff(c.primary, D, o))
+       /\ Chk(e, "DupOutIff", DupOutIff(c.primary, D, o))
        /\ Chk(e, "UnknownReported", UnknownReported(D, o))
        /\ Chk(e, "NoSpuriousReport", NoSpuriousReport(W, o))
        \* nothing but this record's own line reached any sink during the call
@@ -79,8 +81,8 @@ Check ==
        /\ Cnt(3, \E n \in Names(W) : Handed(tg, n) = 1 /\ ~Passes(WriterOf(W, n), e.lvl))
        /\ Cnt(4, D.def = 1)
        /\ Cnt(5, D.def = 0 /\ (~tg.brace \/ DEFAULT \in ToSet(tg.toks)))
-       /\ Cnt(6, D.err = 1)
-       /\ Cnt(7, D.out = 1)
+       /\ Cnt(6, c.primary \notin StdPrimaries /\ D.err = 1)
+       /\ Cnt(7, c.primary \notin StdPrimaries /\ D.out = 1)
        /\ Cnt(8, D.unknown # {})
        /\ Cnt(9, tg.brace /\ HasDup(tg.toks))
        /\ Cnt(10, dupe # c.dupe \/ dupo # c.dupo)
